@@ -3,10 +3,10 @@ package main
 import (
 	"bytes"
 	"encoding/json"
+	"os"
 	"runtime"
 	"strconv"
 	"sync"
-	"sync/atomic"
 
 	"github.com/db47h/decimal"
 )
@@ -52,9 +52,8 @@ func (m *machine) runPar(s M, enc *json.Encoder) {
 		seq    int64
 		pevs   []poolEv
 		idOf   sync.Map // goroutine id -> worker index
-		nextEv int64
 	)
-	decimal.VerifPoolEnable(true, func(e decimal.VerifPoolEvent) {
+	hook := func(e decimal.VerifPoolEvent) {
 		g := -1
 		if v, ok := idOf.Load(goid()); ok {
 			g = v.(int)
@@ -63,7 +62,11 @@ func (m *machine) runPar(s M, enc *json.Encoder) {
 		seq++
 		pevs = append(pevs, poolEv{Seq: seq, G: g, Put: e.Put, Buf: strconv.FormatUint(uint64(e.Buf), 16)})
 		pmu.Unlock()
-	})
+	}
+	if os.Getenv("VERIF_NOPOOLLOG") != "" {
+		hook = nil // the -race build: the race detector is the oracle there, the pool log only slows it down
+	}
+	decimal.VerifPoolEnable(true, hook)
 	defer decimal.VerifPoolEnable(true, nil)
 
 	evs := make([][]M, len(gs))
@@ -75,6 +78,7 @@ func (m *machine) runPar(s M, enc *json.Encoder) {
 		go func(gi int, steps []any) {
 			defer wg.Done()
 			idOf.Store(goid(), gi)
+			nsteps := 0
 			<-start
 			for it := 0; it < iters; it++ {
 				for _, st := range steps {
@@ -87,7 +91,8 @@ func (m *machine) runPar(s M, enc *json.Encoder) {
 					ev["g"] = gi
 					m.stepPar(step, ev)
 					evs[gi] = append(evs[gi], ev)
-					if n := atomic.AddInt64(&nextEv, 1); gcEvery > 0 && n%int64(gcEvery) == 0 {
+					// (a per-goroutine counter: a shared atomic would order the goroutines' steps for the race detector)
+					if nsteps++; gcEvery > 0 && nsteps%gcEvery == 0 {
 						runtime.GC() // empties sync.Pool-like caches and moves goroutines around
 					}
 				}
